@@ -9,6 +9,12 @@
 //!   link title <hex> <start> <max> -> same shape
 //!   link scheme <hex>              -> <hex> | none
 //!   link dangerous <hex>           -> 1 | 0
+//!   link inline <hex> <pos> <max>  -> none | <end>:<href hex|none>:<title hex|none> | PANIC:slice
+//!        the real `LinkScanner::run` (non-silent, a probe constructor registered through
+//!        `full_link::add` records `href` / `title` as the `Option`s `parse_link` produced) on
+//!        `[a]` + tail, no reference map: `none` = the inline form failed.  `pos` = 3 (behind the
+//!        label).  Texts contain no `&` (the model's decoder is abstract; the driver stands in
+//!        with "drop the backslash before ASCII punctuation", which is `unescape_all` there).
 //! The parsers return the UNESCAPED text; the raw slice is rebuilt from the positions and
 //! `res.str == unescape_all(raw)` is asserted here (counter `unescape_mismatch`, must stay 0).
 use super::Out;
@@ -17,7 +23,50 @@ use crate::rng::Rng;
 use crate::util::{guarded, hexs};
 use markdown_it::common::utils::unescape_all;
 use markdown_it::generics::inline::full_link::{parse_link_destination, parse_link_title};
-use markdown_it::MarkdownIt;
+use markdown_it::common::ErasedSet;
+use markdown_it::generics::inline::full_link::{self, LinkScanner};
+use markdown_it::parser::inline::{InlineRule, InlineState};
+use markdown_it::plugins::cmark::block::paragraph::Paragraph;
+use markdown_it::{MarkdownIt, Node, NodeValue, Renderer};
+
+#[derive(Debug)]
+pub struct ProbeLink { pub href: Option<String>, pub title: Option<String> }
+impl NodeValue for ProbeLink { fn render(&self, _: &Node, _: &mut dyn Renderer) {} }
+
+/// what follows `[a]`: `(`, blanks, a destination (often a dangerous scheme in disguise), blanks,
+/// a title, blanks, `)` — each part optional / mutated
+pub fn gen_tail(rng: &mut Rng) -> String {
+    let mut s = String::new();
+    s.push_str(*rng.pick(&["(", "(", "(", "(", "( ", "(\n", "(\t ", "", "[", "x("]));
+    let url = |rng: &mut Rng| {
+        let sch0 = *rng.pick(&["javascript", "vbscript", "file", "data", "data", "http", "javascrip", "xdata", "mailto"]);
+        let mut u = mix_case(rng, sch0);
+        u.push_str(*rng.pick(&[":", ":", ":", "\\:", "%3A", "", "\t:", ";"]));
+        u.push_str(*rng.pick(&["x", "alert(1)", "image/png;x", "IMAGE/GIF;", "image/svg+xml;x", "//h/p", "", "text/html,y", "\\(x\\)", "a\\ b"]));
+        u
+    };
+    match rng.below(12) {
+        0 => {}
+        1..=4 => { let u = url(rng); s.push_str(&u); }
+        5 | 6 => { let u = url(rng); s.push('<'); s.push_str(&u); s.push('>'); }
+        7 => { let (f, at) = gen_frag(rng, false); s.push_str(&f[at..]); }
+        8 => s.push_str(*rng.pick(&["\"t\"", "'t'", "(t)", "\"", "(", ")", "\"javascript:x\"", "(data:x)", "'file:x'"])),
+        9 => { s.push_str(*rng.pick(&["\\", "\\j", "\\:", "j\\"])); let u = url(rng); s.push_str(&u); }
+        _ => s.push_str(*rng.pick(&["/url", "<b>", "<>", "b\\)c", "\u{e9}", "a(b)c", "<a b>", "b\\\tc", "b\\\nc", "<b\\>c>", "\u{1f600}/x"])),
+    }
+    s.push_str(*rng.pick(&["", "", " ", "  ", "\n", " \t\n ", "\u{a0}"]));
+    match rng.below(8) {
+        0..=2 => {}
+        3 => s.push_str("\"t\""),
+        4 => s.push_str("'t\\'x'"),
+        5 => s.push_str("(t\nu)"),
+        6 => s.push_str(*rng.pick(&["\"\"", "\"t", "(a(b)", "\"t\\\"", "'\u{e9}'", "\"a\\\nb\""])),
+        _ => { let (f, at) = gen_frag(rng, true); s.push_str(&f[at..]); }
+    }
+    s.push_str(*rng.pick(&["", "", " ", "\n", "\t"]));
+    s.push_str(*rng.pick(&[")", ")", ")", ")", ")", "", ") x", "))", "]", ")\u{e9}"]));
+    s.replace('&', "+")
+}
 
 const SCHEMES: &[&str] = &[
     "javascript", "vbscript", "file", "data", "http", "https", "mailto", "ftp",
@@ -182,8 +231,63 @@ pub fn run(n: usize, rng: &mut Rng, out: &mut Out) {
         out.emit(&format!("link dangerous {}", hexs(u)), if dangerous(u) { "1" } else { "0" }, true);
     }
 
+    let mut md_probe = MarkdownIt::new();
+    full_link::add::<false>(&mut md_probe, |href, title| Node::new(ProbeLink { href, title }));
+    let run_inline = |src: &str, max: usize| -> String {
+        match guarded(|| {
+            let mut env = ErasedSet::new();
+            let mut st = InlineState::new(src.to_owned(), vec![(0, 0)], &md_probe, &mut env, Node::new(Paragraph));
+            st.pos = 0; st.pos_max = max;
+            match LinkScanner::<false>::run(&mut st, false) {
+                None => "none".to_string(),
+                Some(len) => {
+                    let node = st.node.children.last().unwrap();
+                    let p = node.cast::<ProbeLink>().unwrap();
+                    // the real-mode link rule leaves `state.pos` at the end of the label and returns the
+                    // length from THERE (the tokenizer does `state.pos += len`): end = pos + len
+                    format!("{}:{}:{}", st.pos + len, p.href.as_ref().map(|h| hexs(h)).unwrap_or("none".into()), p.title.as_ref().map(|t| hexs(t)).unwrap_or("none".into()))
+                }
+            }
+        }) { Ok(a) => a, Err(_) => "PANIC:slice".to_string() }
+    };
+    for (tail, _) in [("(javascript:alert(1))", 0), ("(<javascript:x>)", 0), ("(JaVaScRiPt\\:x)", 0), ("(data:image/png;base64,xx \"t\")", 0),
+                      ("(data:text/html,x)", 0), ("(/u 't')", 0), ("(<b>\"t\")", 0), ("()", 0), ("(\"t\")", 0), ("( )", 0), ("(\n/u\n\"t\"\n)", 0)] {
+        let src = format!("[a]{}", tail);
+        let ans = run_inline(&src, src.len());
+        out.emit(&format!("link inline {} 3 {}", hexs(&src), src.len()), &ans, true);
+    }
+
     for i in 0..n {
-        match i % 5 {
+        match i % 7 {
+            5 | 6 => {
+                let tail = gen_tail(rng);
+                let src = format!("[a]{}", tail);
+                let bs: Vec<usize> = boundaries(&src).into_iter().filter(|b| *b >= 3).collect();
+                let max = if rng.chance(5, 6) { src.len() } else { *rng.pick(&bs) };
+                let ans = run_inline(&src, max);
+                if ans == "none" { out.stats.count("inline_none"); }
+                else if ans.starts_with("PANIC") { out.stats.count("inline_panic"); }
+                else {
+                    out.stats.count("inline_some");
+                    let parts: Vec<&str> = ans.split(':').collect();
+                    if parts[1] == "none" { out.stats.count("INLINE_LINK_WITHOUT_HREF"); }
+                    if parts[2] != "none" { out.stats.count("inline_with_title"); }
+                }
+                // rejected destination? (decided here with the real functions, for the counter only)
+                if let Some(open) = tail.find('(') {
+                    let from = 3 + open + 1;
+                    let from = from + src[from..max.max(from)].chars().take_while(|c| matches!(c, ' ' | '\t' | '\n')).count();
+                    if from <= max {
+                        if let Ok(Some(res)) = guarded(|| parse_link_destination(&src, from, max)) {
+                            if !validate(&normalize(&res.str)) {
+                                out.stats.count("inline_dest_rejected");
+                                if ans != "none" { out.stats.count("INLINE_LINK_DESPITE_REJECTED_DEST"); }
+                            }
+                        }
+                    }
+                }
+                out.emit(&format!("link inline {} 3 {}", hexs(&src), max), &ans, ans != "none");
+            }
             0 | 1 => {
                 // url family: normalize, validate (on the normalised string and, if ASCII, on the raw one),
                 // browser view of both
